@@ -65,28 +65,35 @@ def patch(
 
     std_targets = ["snowflake.connector.connect", "snowflake.connector.pandas_tools.write_pandas"]
 
+    targets = std_targets + list([extra_targets] if isinstance(extra_targets, str) else extra_targets)
+
     stack = contextlib.ExitStack()
 
-    for im in std_targets + list([extra_targets] if isinstance(extra_targets, str) else extra_targets):
-        module_name = ".".join(im.split(".")[:-1])
-        fn_name = im.split(".")[-1]
-        # get module or try to import it if not loaded yet
-        module = sys.modules.get(module_name) or importlib.import_module(module_name)
-        fn = module.__dict__.get(fn_name)
-        assert fn, f"No module var {im}"
-
-        # if we imported the module above, it'll already be mocked because
-        # it'll reference the standard targets which are mocked first
-        if isinstance(fn, mock.MagicMock):
-            continue
-
-        fake = fake_fns.get(fn)
-        assert fake, f"Module var {im} is {fn} and not one of {fake_fns.keys()}"
-
-        p = mock.patch(im, side_effect=fake)
-        stack.enter_context(p)
-
     try:
+        # import modules that aren't loaded yet before patching anything, so they bind the original
+        # functions (which we then patch, and restore on exit) rather than the standard targets' mocks
+        for im in targets:
+            module_name = ".".join(im.split(".")[:-1])
+            if module_name not in sys.modules:
+                importlib.import_module(module_name)
+
+        for im in targets:
+            module_name = ".".join(im.split(".")[:-1])
+            fn_name = im.split(".")[-1]
+            module = sys.modules[module_name]
+            fn = module.__dict__.get(fn_name)
+            assert fn, f"No module var {im}"
+
+            # already patched, eg: listed twice
+            if isinstance(fn, mock.MagicMock):
+                continue
+
+            fake = fake_fns.get(fn)
+            assert fake, f"Module var {im} is {fn} and not one of {fake_fns.keys()}"
+
+            p = mock.patch(im, side_effect=fake)
+            stack.enter_context(p)
+
         yield None
     finally:
         stack.close()
